@@ -92,6 +92,11 @@ def _case(draw):
             left -= k
     case = {'frontend': fe, 'framing': framing, 'single': single, 'hosted': hosted, 'ignore_missing_slaves': ignore,
             'broadcast_enable': bcast, 'requests': reqs, 'groups': groups}
+    if fe in frontends.DATAGRAM and draw(st.booleans()):
+        # datagrams of two senders, some of them arriving back to back before the server gets a turn: every answer goes to
+        # the sender of its request
+        case['peers'] = draw(st.lists(st.integers(0, 1), min_size=len(reqs), max_size=len(reqs)))
+        case['burst'] = draw(st.lists(st.booleans(), min_size=len(reqs), max_size=len(reqs)))
     if fe in frontends.STREAM and framing != 'tls' and draw(st.integers(0, 2)) == 0:
         # the same request stream cut at arbitrary byte positions, with idle receive time-outs while no frame is pending
         case['cuts'] = draw(gens.cuts())
@@ -131,9 +136,20 @@ def run_case(case):
         return Outcome([], labels + ['excluded-binary-delimiter'], False)
     script = []
     i = 0
+    peers = case.get('peers') or [0] * len(reqs)
+    peers = (list(peers) + [0] * len(reqs))[:len(reqs)]
+    burst = case.get('burst') or []
     for k in case['groups']:
-        script.append((0, b''.join(frames[i:i + k])))
+        if case.get('peers') and k == 1:
+            if i < len(burst) and burst[i] and i + 1 < len(reqs):
+                script.append((peers[i], frames[i], 'burst'))
+            else:
+                script.append((peers[i], frames[i]))
+        else:
+            script.append((0, b''.join(frames[i:i + k])))
         i += k
+    if case.get('peers'):
+        labels.append('two-senders')
     multi_read = any(k > 1 for k in case['groups'])
     if case.get('cuts'):
         labels.append('byte-level-cuts')
@@ -152,15 +168,27 @@ def run_case(case):
     ctx = make_context(single, hosted)
     res = frontends.run(fe, framing, ctx, script, ignore_missing_slaves=ignore, broadcast_enable=bcast)
     discs = []
-    sent = res.sent.get(0, [])
     for c, e in res.escaped:
         discs.append(Disc('escaped', '%s/%s: exception left the serving code: %s' % (fe, framing, e)))
     if res.hung:
         discs.append(Disc('hung', '%s/%s: handler did not come back' % (fe, framing)))
+    silent = False
+    for peer_ in sorted(set(peers)) if case.get('peers') else [0]:
+        silent = _judge_peer(case, labels, discs, res.sent.get(peer_, []), [r for r, p_ in zip(reqs, peers) if p_ == peer_], reqs, multi_read) or silent
+        if discs:
+            break
+    pm.reset_globals()
+    return Outcome(discs, labels, multi_read or silent)
+
+
+def _judge_peer(case, labels, discs, sent, mine, reqs, multi_read):
+    """one sender's requests (in order) against what was sent back to that sender; returns True when silence was expected somewhere"""
+    fe, framing = case['frontend'], case['framing']
+    single, hosted, ignore, bcast = case['single'], case['hosted'], case['ignore_missing_slaves'], case['broadcast_enable']
     # expected sequence
     expect = []
     silent = False
-    for r in reqs:
+    for r in mine:
         pdu = bytes.fromhex(r['pdu'])
         uid = r['uid']
         is_listen_only = pdu[:3] == b'\x08\x00\x04'
@@ -219,8 +247,7 @@ def run_case(case):
             if j < len(parsed):
                 p = parsed[j]
                 discs.append(Disc('unsolicited', '%s/%s: extra frame written that answers no request: %s' % (fe, framing, (p['uid'], p['tid'], p['pdu'].hex()[:24]))))
-    pm.reset_globals()
-    return Outcome(discs, labels, multi_read or silent)
+    return silent
 
 
 def _finding(case, idx, multi_read):
